@@ -725,6 +725,23 @@ def sig_digits(fmt: str):
     return 0  # fixed-point: no relative precision
 
 
+def _iterable_of(loop_target: ast.expr, loop_iter: ast.expr, var: str):
+    """text of the sequence the loop variable `var` runs over, for `for var in L`, `for i, var in enumerate(L)`,
+    `for x, var in zip(X, L)` (any position); None if `var` is not such a variable."""
+    if isinstance(loop_target, ast.Name):
+        return u(loop_iter) if loop_target.id == var else None
+    if isinstance(loop_target, ast.Tuple):
+        names = [e.id if isinstance(e, ast.Name) else None for e in loop_target.elts]
+        if var not in names:
+            return None
+        k = names.index(var)
+        if _isenum(loop_iter) and len(names) == 2 and k == 1:
+            return u(loop_iter.args[0])
+        if _is_call(loop_iter, "zip") and len(loop_iter.args) == len(names) and not loop_iter.keywords:
+            return u(loop_iter.args[k])
+    return None
+
+
 def _accumulations(fn: ast.FunctionDef, name: str):
     """How the string `name` is built: [(attribute, separator, iterated list text, node)] from
     `name += item.attr + sep` in a for loop, or `name = sep.join(item.attr for item in LIST)`."""
@@ -737,15 +754,14 @@ def _accumulations(fn: ast.FunctionDef, name: str):
                 loop = pm[loop]
             if not isinstance(loop, ast.For):
                 raise Undecided(f"`{u(s)}` is not inside a for loop")
-            item = loop.target.elts[1].id if isinstance(loop.target, ast.Tuple) and _isenum(loop.iter) and len(loop.target.elts) == 2 \
-                else (loop.target.id if isinstance(loop.target, ast.Name) else None)
-            lst = u(loop.iter.args[0]) if _isenum(loop.iter) else u(loop.iter)
             v = s.value
-            attr = sep = None
+            attr = sep = lst = None
             if isinstance(v, ast.BinOp) and isinstance(v.op, ast.Add):
                 for x, y in ((v.left, v.right), (v.right, v.left)):
-                    if isinstance(x, ast.Attribute) and isinstance(x.value, ast.Name) and x.value.id == item and _str(y) is not None:
-                        attr, sep = x.attr, _str(y)
+                    if isinstance(x, ast.Attribute) and isinstance(x.value, ast.Name) and _str(y) is not None:
+                        lst = _iterable_of(loop.target, loop.iter, x.value.id)
+                        if lst is not None:
+                            attr, sep = x.attr, _str(y)
             if attr is None:
                 raise Undecided(f"accumulation `{u(s)}` is not `+= item.<attr> + <sep>`")
             out.append((attr, sep, lst, s))
@@ -822,9 +838,13 @@ def _check_txt(ctx: Ctx) -> None:
     xl = stores[0]
     while xl in pmw and not isinstance(xl, ast.For):
         xl = pmw[xl]
-    if not (isinstance(xl, ast.For) and _isenum(xl.iter) and isinstance(xl.target, ast.Tuple) and len(xl.target.elts) == 2):
-        raise Undecided(f"{wq}: column store is not inside `for idx, item in enumerate(<list>)`")
-    xlist, IDX, DAT = u(xl.iter.args[0]), xl.target.elts[0].id, xl.target.elts[1].id
+    sval = stores[0].value
+    if not (isinstance(xl, ast.For) and isinstance(sval, ast.Attribute) and isinstance(sval.value, ast.Name)):
+        raise Undecided(f"{wq}: column store `{u(stores[0])}` is not `table[<field>] = item.<attr>` inside a for loop")
+    DAT = sval.value.id
+    xlist = _iterable_of(xl.target, xl.iter, DAT)
+    if xlist is None:
+        raise Undecided(f"{wq}: loop `for {u(xl.target)} in {u(xl.iter)}` around the column store not recognised")
     ctx.check("R5", hlist == flist == xlist, m, wq, stores[0],
               f"column values, header names and formats must be taken from the same list in the same order; they iterate "
               f"`{xlist}`, `{hlist}`, `{flist}`", construct=f"txt columns/header/fmt iterate {xlist} / {hlist} / {flist}")
@@ -837,18 +857,34 @@ def _check_txt(ctx: Ctx) -> None:
               construct=f"txt column value {_alpha(stores[0].value, DAT)}")
     # structured dtype names agree
     key_w = stores[0].targets[0].slice
-    key_d = None
+    dt = kwarg([c for c in walk_local(wfn) if _is_call(c, "zeros") or _is_call(c, "empty")][0], "dtype") if any(
+        _is_call(c, "zeros") or _is_call(c, "empty") for c in walk_local(wfn)) else None
+    key_d = None       # f-string pattern of the dtype names
+    names_list_d = None  # or: the list the dtype names are drawn from
     for n in walk_local(wfn):
-        if isinstance(n, ast.Tuple) and len(n.elts) == 2 and isinstance(n.elts[0], ast.JoinedStr) and "float" in u(n.elts[1]):
-            key_d = n.elts[0]
-    if not (isinstance(key_w, ast.JoinedStr) and isinstance(key_d, ast.JoinedStr)):
-        raise Undecided(f"{wq}: structured field names are not f-strings")
+        if isinstance(n, ast.Tuple) and len(n.elts) == 2 and "float" in u(n.elts[1]):
+            if isinstance(n.elts[0], ast.JoinedStr):
+                key_d = n.elts[0]
+            elif isinstance(n.elts[0], ast.Name):
+                par = parent_map(wfn).get(n)
+                if isinstance(par, (ast.ListComp, ast.GeneratorExp)) and len(par.generators) == 1:
+                    names_list_d = _iterable_of(par.generators[0].target, par.generators[0].iter, n.elts[0].id)
 
     def fpat(js):
         return "".join(v.value if isinstance(v, ast.Constant) else "{}" for v in js.values)
-    ctx.check("R5", fpat(key_w) == fpat(key_d), m, wq, stores[0],
-              f"field name pattern of the store `{fpat(key_w)}` must equal the dtype's `{fpat(key_d)}`",
-              construct=f"txt field names {fpat(key_w)} / {fpat(key_d)}")
+    if isinstance(key_w, ast.JoinedStr) and isinstance(key_d, ast.JoinedStr):
+        ctx.check("R5", fpat(key_w) == fpat(key_d), m, wq, stores[0],
+                  f"field name pattern of the store `{fpat(key_w)}` must equal the dtype's `{fpat(key_d)}`",
+                  construct=f"txt field names {fpat(key_w)} / {fpat(key_d)}")
+    elif isinstance(key_w, ast.Name) and names_list_d is not None:
+        names_list_w = _iterable_of(xl.target, xl.iter, key_w.id)
+        if names_list_w is None:
+            raise Undecided(f"{wq}: field key `{key_w.id}` of the column store is not a loop variable over a list of names")
+        ctx.check("R5", names_list_w == names_list_d, m, wq, stores[0],
+                  f"column k is stored under the k-th name of `{names_list_w}`; the dtype takes its names from `{names_list_d}` (must be the same list)",
+                  construct=f"txt field names from {names_list_w} / {names_list_d}")
+    else:
+        raise Undecided(f"{wq}: field names of the structured array not recognised (store key `{u(key_w)}`)")
     # reader side: names = <header expr>.split(sep?)
     ndefs = [s for s in stmts_local(rfn) if isinstance(s, ast.Assign) and u(s.targets[0]) == NAMES]
     sp = ndefs[0].value if len(ndefs) == 1 else None
